@@ -195,6 +195,20 @@ func execStack[E any](c stackCase, cd lib.Codec[E]) core.Result {
 		if w := decAll(cd, walk(st.GetIterator())); !lib.EqInts(w, model) {
 			return core.Violate("C13/iteration", "after %s (step %d): iteration %v, model (top first) %v", what, step, w, model)
 		}
+		// two traversals at once (a nested loop over the same stack, a print of the stack inside a loop): every one
+		// of them lists all values from the top down
+		outer := st.GetIterator()
+		var seen []int
+		for outer.HasNext() {
+			seen = append(seen, cd.Dec(outer.GetNext()))
+			if inner := decAll(cd, walk(st.GetIterator())); !lib.EqInts(inner, model) {
+				return core.Violate("C13/iteration/nested", "after %s (step %d): a traversal started while another one was under way listed %v, model (top first) %v", what, step, inner, model)
+			}
+			_ = st.AsArray()
+		}
+		if !lib.EqInts(seen, model) && !(len(seen) == 0 && len(model) == 0) {
+			return core.Violate("C13/iteration/nested", "after %s (step %d): a traversal during which the stack was traversed again listed %v, model (top first) %v", what, step, seen, model)
+		}
 		if uint(len(model)) == capacity {
 			reachedFull = true
 		}
